@@ -147,18 +147,20 @@ def rotated_files(index=None):
 def subset(from_table: {str: int}, name: str, parents: [int] = None) -> {}:
     '''extract a subset of table as a dictionary
 
-    It behaves two different ways. If parnets is provided, then it will use
-    util.construct() to generate the full name given the parents. If parents is
-    not given, then it will simply use name.
+    It behaves two different ways. If parnets is provided, then it selects
+    the entries whose parent is one of parents and whose name is exactly name
+    (all versions); an empty list of parents therefore selects nothing. If
+    parents is not given, then it will simply use name as a prefix of the key.
     '''
     result = {}
-    if parents:
+    if parents is not None:
         for parent in parents:
-            surname = construct(name, parent)
+            # compare the dissected fields: a prefix test on the constructed
+            # name would also select every name that merely starts with name
             result.update(
                 dict(
                     filter(
-                        lambda t, sn=surname: t[0].startswith(sn),
+                        lambda t, p=parent, n=name: dissect(t[0])[:2] == (p, n),
                         from_table.items(),
                     )
                 )
